@@ -156,6 +156,8 @@ func checkC19(c *Ctx) {
 			switch {
 			case r == rootOwnTemp || r == rootSharedTemp:
 				detail += "removes a directory this process tree created; "
+			case r == rootCache:
+				detail += "removes a file of garble's own cache; "
 			case r == rootDebugDir:
 				// ownership is R19.3's business; here only note it
 				detail += "removes the -debugdir target (ownership decided by R19.3); "
